@@ -75,12 +75,15 @@ var lfSpecs = []lfGuardSpec{
 	// lazily created nm-based symbolizer of a file opened in fast mode (guard added by
 	// fixes/C20-fileNM-lazy-init.patch; without it this row is an error: "guard not found")
 	{"internal/binutils", "fileNM", "addr2linernm", "fileNM", "mu", "mutex"},
+	// the HTTP transport shared by all concurrent fetches of one invocation: everything in it
+	// is set up once (flags in New, certificates under initOnce) and only read afterwards
+	{"internal/transport", "transport", "*", "transport", "initOnce", "once"},
 }
 
 // structs whose fields may only be written while the object is fresh (copy-on-write values)
 var lfImmutable = []struct{ pkg, typ string }{{"internal/binutils", "binrep"}}
 
-var lfPackages = []string{"profile", "internal/binutils", "internal/driver"}
+var lfPackages = []string{"profile", "internal/binutils", "internal/transport", "internal/driver"}
 
 // ---------------------------------------------------------------------------------------------
 // loaded package
@@ -1321,7 +1324,12 @@ func (p *lfPkg) lookupVar(owner, name string) []*types.Var {
 		}
 		for i := 0; i < st.NumFields(); i++ {
 			f := st.Field(i)
-			if strings.HasPrefix(name, "*") {
+			if name == "*" {
+				// every field that is not itself a sync primitive
+				if !lfIsSync(f.Type(), "Mutex") && !lfIsSync(f.Type(), "RWMutex") && !lfIsSync(f.Type(), "Once") && !lfIsSync(f.Type(), "WaitGroup") {
+					out = append(out, f)
+				}
+			} else if strings.HasPrefix(name, "*") {
 				if strings.HasSuffix(f.Name(), name[1:]) && !f.Exported() && len(f.Name()) > len(name)-1 {
 					out = append(out, f)
 				}
@@ -2210,6 +2218,315 @@ func (p *lfPkg) tempFile() (*lfTemp, error) {
 // ---------------------------------------------------------------------------------------------
 // driver
 
+// ---------------------------------------------------------------------------------------------
+// generic facts: barriers of any guard, split read-modify-write, renames, writes to globals
+
+// anyBarrier: which units run only under SOME mutex of the package / only inside SOME once body.
+type lfAny struct {
+	underMutex map[*lfUnit]string // unit -> name of a mutex that is held at every call site (write lock)
+	inOnce     map[*lfUnit]bool
+}
+
+func (p *lfPkg) anyBarrier() *lfAny {
+	a := &lfAny{underMutex: map[*lfUnit]string{}, inOnce: map[*lfUnit]bool{}}
+	guards := map[*types.Var]bool{}
+	for _, u := range p.units {
+		for _, r := range u.regions {
+			if !r.read {
+				guards[r.guard] = true
+			}
+		}
+	}
+	for g := range guards {
+		g := g
+		conf := p.confined(func(c *lfCall) bool {
+			if c.caller == nil || c.isRef {
+				return false
+			}
+			r := c.caller.heldAt(c.pos, g)
+			return r != nil && !r.read
+		})
+		for u := range conf {
+			if _, ok := a.underMutex[u]; !ok {
+				a.underMutex[u] = lfGuardName(p, g)
+			}
+		}
+	}
+	ob := p.confined(func(c *lfCall) bool { return c.caller != nil && c.caller.onceBody != nil })
+	for _, u := range p.units {
+		if u.onceBody != nil || ob[u] || (u.decl != nil && len(lfOnceArgs[u]) > 0 && u.escapes == "") {
+			a.inOnce[u] = true
+		}
+	}
+	return a
+}
+
+// barrierAt names the barrier (of any guard) that covers position pos of unit u, or "none".
+func (p *lfPkg) barrierAt(a *lfAny, u *lfUnit, pos token.Pos) (string, string) {
+	if u == nil {
+		return "pkgInit", ""
+	}
+	for _, r := range u.regions {
+		if r.read || !(r.from <= pos && pos < r.to) {
+			continue
+		}
+		inHole := false
+		for _, h := range r.holes {
+			if h[0] <= pos && pos < h[1] {
+				inHole = true
+			}
+		}
+		if !inHole {
+			if r.deferred {
+				return "deferLock", lfGuardName(p, r.guard)
+			}
+			return "lock", lfGuardName(p, r.guard)
+		}
+	}
+	if g, ok := a.underMutex[u]; ok {
+		return "confined", g
+	}
+	if a.inOnce[u] {
+		return "onceBody", ""
+	}
+	if u.decl != nil && u.decl.Recv == nil && u.decl.Name.Name == "init" {
+		return "pkgInit", ""
+	}
+	return "none", ""
+}
+
+// mentions: expression e mentions variable v.
+func (p *lfPkg) mentions(e ast.Node, v types.Object) bool {
+	found := false
+	ast.Inspect(e, func(n ast.Node) bool {
+		if id, ok := n.(*ast.Ident); ok && p.info.Uses[id] == v {
+			found = true
+		}
+		return !found
+	})
+	return found
+}
+
+type lfSplit struct{ fn, variable, where, how string }
+
+// splitRMW finds the lost-update shape for a mutex-guarded variable v: a function obtains the
+// value of v in one critical section (directly, or from a getter: a function whose critical
+// section reads v and which returns a value), and later stores a value computed from it in
+// ANOTHER critical section (directly, or through a setter: a function whose critical section
+// assigns v from a parameter).  Between the two another goroutine's update can be lost.
+func (p *lfPkg) splitRMW(v *types.Var, g *types.Var, name string) []lfSplit {
+	getters, setters := map[*lfUnit]bool{}, map[*lfUnit]int{}
+	type access struct {
+		u     *lfUnit
+		id    *ast.Ident
+		write bool
+		r     *lfRegion
+	}
+	var acc []access
+	for _, f := range p.files {
+		ast.Inspect(f, func(n ast.Node) bool {
+			id, ok := n.(*ast.Ident)
+			if !ok || p.info.Uses[id] != types.Object(v) {
+				return true
+			}
+			u := p.unitAt(id)
+			if u == nil {
+				return true
+			}
+			var expr ast.Expr = id
+			if sel, ok := p.parent[id].(*ast.SelectorExpr); ok && sel.Sel == id {
+				expr = sel
+			}
+			acc = append(acc, access{u, id, p.isWrite(expr), u.heldAt(id.Pos(), g)})
+			return true
+		})
+	}
+	for _, a := range acc {
+		if a.r == nil || a.u.decl == nil {
+			continue
+		}
+		sig := a.u.fn.Type().(*types.Signature)
+		if !a.write && sig.Results().Len() > 0 {
+			getters[a.u] = true
+		}
+		if a.write {
+			// v = <expr mentioning parameter k>
+			if as, ok := p.parent[a.id].(*ast.AssignStmt); ok && len(as.Lhs) == len(as.Rhs) {
+				for i, l := range as.Lhs {
+					if l == ast.Expr(a.id) {
+						for k, prm := range a.u.params {
+							if prm != nil && k > 0 && p.mentions(as.Rhs[i], prm) {
+								setters[a.u] = k
+							}
+						}
+					}
+				}
+			}
+		}
+	}
+	for _, a := range acc {
+		if a.write {
+			delete(getters, a.u) // a function that also writes v is not a pure getter
+		}
+	}
+	var out []lfSplit
+	for _, u := range p.units {
+		// read events: local variable <- value of v
+		type rd struct {
+			local types.Object
+			pos   token.Pos
+			r     *lfRegion
+			how   string
+		}
+		var reads []rd
+		ast.Inspect(u.body, func(n ast.Node) bool {
+			if _, ok := n.(*ast.FuncLit); ok {
+				return false
+			}
+			as, ok := n.(*ast.AssignStmt)
+			if !ok || len(as.Lhs) != len(as.Rhs) {
+				return true
+			}
+			for i, l := range as.Lhs {
+				lid, ok := l.(*ast.Ident)
+				if !ok {
+					continue
+				}
+				lo := p.info.Defs[lid]
+				if lo == nil {
+					lo = p.info.Uses[lid]
+				}
+				if lo == nil || lo == types.Object(v) {
+					continue
+				}
+				rhs := as.Rhs[i]
+				if p.mentions(rhs, v) {
+					if r := u.heldAt(as.Pos(), g); r != nil {
+						reads = append(reads, rd{lo, as.Pos(), r, "read under " + lfGuardName(p, g)})
+					}
+				}
+				if c, ok := ast.Unparen(rhs).(*ast.CallExpr); ok {
+					if fn := p.calleeFunc(c.Fun); fn != nil && getters[p.byFn[fn]] && u.heldAt(as.Pos(), g) == nil {
+						reads = append(reads, rd{lo, as.Pos(), nil, "read by " + fn.Name() + "()"})
+					}
+				}
+			}
+			return true
+		})
+		if len(reads) == 0 {
+			continue
+		}
+		ast.Inspect(u.body, func(n ast.Node) bool {
+			if _, ok := n.(*ast.FuncLit); ok {
+				return false
+			}
+			switch x := n.(type) {
+			case *ast.AssignStmt:
+				for i, l := range x.Lhs {
+					if id, _ := lfRootIdent(l); id != nil && p.info.Uses[id] == types.Object(v) && i < len(x.Rhs) {
+						wr := u.heldAt(x.Pos(), g)
+						for _, r := range reads {
+							if r.pos < x.Pos() && p.mentions(x.Rhs[i], r.local) && (r.r == nil || r.r != wr) {
+								out = append(out, lfSplit{u.name, name, p.where(x.Pos()), r.how + ", written back in another critical section"})
+							}
+						}
+					}
+				}
+			case *ast.CallExpr:
+				fn := p.calleeFunc(x.Fun)
+				if fn == nil {
+					return true
+				}
+				k, isSetter := setters[p.byFn[fn]]
+				if !isSetter || k-1 >= len(x.Args) || u.heldAt(x.Pos(), g) != nil {
+					return true
+				}
+				for _, r := range reads {
+					if r.pos < x.Pos() && p.mentions(x.Args[k-1], r.local) {
+						out = append(out, lfSplit{u.name, name, p.where(x.Pos()), r.how + ", written back by " + fn.Name() + "()"})
+					}
+				}
+			}
+			return true
+		})
+	}
+	return out
+}
+
+type lfRename struct{ fn, where, dst, guard string }
+
+// renames lists every os.Rename of the package with the mutex that serialises it ("" = none):
+// a rename REPLACES its destination, so the destination is protected neither by the O_EXCL of
+// the source name nor by anything else unless all such renames run under one lock.
+func (p *lfPkg) renames(a *lfAny) []lfRename {
+	var out []lfRename
+	for _, f := range p.files {
+		ast.Inspect(f, func(n ast.Node) bool {
+			c, ok := n.(*ast.CallExpr)
+			if !ok || len(c.Args) != 2 {
+				return true
+			}
+			sel, ok := c.Fun.(*ast.SelectorExpr)
+			if !ok {
+				return true
+			}
+			fn, ok := p.info.Uses[sel.Sel].(*types.Func)
+			if !ok || fn.Pkg() == nil || fn.Pkg().Path() != "os" || (fn.Name() != "Rename" && fn.Name() != "Link" && fn.Name() != "Symlink") {
+				return true
+			}
+			u := p.unitAt(c)
+			r := lfRename{fn: "package-level", where: p.where(c.Pos()), dst: p.src(c.Args[1])}
+			if u != nil {
+				r.fn = u.name
+				if b, g := p.barrierAt(a, u, c.Pos()); b == "lock" || b == "deferLock" || b == "confined" {
+					r.guard = g
+				}
+			}
+			if fn.Name() != "Rename" {
+				r.guard = "exclusive:" + fn.Name() // link/symlink fail when the destination exists
+			}
+			out = append(out, r)
+			return true
+		})
+	}
+	return out
+}
+
+type lfGlobalWrite struct{ variable, fn, where, barrier string }
+
+// globalWrites lists every assignment to a package-level variable made inside a function
+// (lazy initialisation, mutable globals) with the barrier that covers it.
+func (p *lfPkg) globalWrites(a *lfAny) []lfGlobalWrite {
+	var out []lfGlobalWrite
+	for _, f := range p.files {
+		ast.Inspect(f, func(n ast.Node) bool {
+			id, ok := n.(*ast.Ident)
+			if !ok {
+				return true
+			}
+			v, ok := p.info.Uses[id].(*types.Var)
+			if !ok || v.Pkg() != p.pkg || v.Parent() != p.pkg.Scope() {
+				return true
+			}
+			u := p.unitAt(id)
+			if u == nil {
+				return true
+			}
+			var expr ast.Expr = id
+			if !p.isWrite(expr) {
+				return true
+			}
+			if lfIsSync(v.Type(), "Mutex") || lfIsSync(v.Type(), "RWMutex") || lfIsSync(v.Type(), "Once") || lfIsSync(v.Type(), "WaitGroup") {
+				return true // calling mu.Lock() "writes" the mutex
+			}
+			b, _ := p.barrierAt(a, u, id.Pos())
+			out = append(out, lfGlobalWrite{p.pkg.Name() + "." + v.Name(), u.name, p.where(id.Pos()), b})
+			return true
+		})
+	}
+	return out
+}
+
 func genLockFacts(e *Env) (string, error) {
 	fset := token.NewFileSet()
 	// the source importer resolves module-local import paths with `go list`, which must run
@@ -2231,6 +2548,9 @@ func genLockFacts(e *Env) (string, error) {
 	var regions []regionRow
 	var guardRows [][3]string
 	var looseRows [][5]string
+	var splits []lfSplit
+	var renames []lfRename
+	var globals []lfGlobalWrite
 	ext := map[string]map[string]bool{}
 	for _, rel := range lfPackages {
 		p, err := lfLoad(e, fset, imp, rel)
@@ -2325,6 +2645,9 @@ func genLockFacts(e *Env) (string, error) {
 				}
 				t := &lfTarget{spec: spec, v: v, guard: g, name: name}
 				guardRows = append(guardRows, [3]string{name, lfGuardName(p, g), spec.kind})
+				if fv, ok := v.(*types.Var); ok && spec.kind == "mutex" && !fv.IsField() {
+					splits = append(splits, p.splitRMW(fv, g, name)...)
+				}
 				ss := p.sitesOf(t, fr, conf, confR, ob, ao)
 				if len(ss) == 0 {
 					errs = append(errs, fmt.Sprintf("%s: no access site of %s found", rel, name))
@@ -2350,6 +2673,9 @@ func genLockFacts(e *Env) (string, error) {
 				}
 			}
 		}
+		anyB := p.anyBarrier()
+		renames = append(renames, p.renames(anyB)...)
+		globals = append(globals, p.globalWrites(anyB)...)
 		for _, l := range p.loose {
 			fn := "package-level"
 			if l.unit != nil {
@@ -2494,6 +2820,28 @@ func genLockFacts(e *Env) (string, error) {
 			b.WriteString(",\n")
 		}
 		fmt.Fprintf(&b, "  (%s, %s, %s, %s, %s)", leanStr(l[0]), leanStr(l[1]), leanStr(l[2]), leanStr(l[3]), leanStr(l[4]))
+	}
+	b.WriteString("]\n\n")
+	b.WriteString("/-- lost-update shapes: a function reads a mutex-guarded package variable in one critical section and\nwrites a value computed from it back in another: (function, variable, place, how) -/\ndef splitRMW : List (String × String × String × String) := [\n")
+	for i, x := range splits {
+		if i > 0 {
+			b.WriteString(",\n")
+		}
+		fmt.Fprintf(&b, "  (%s, %s, %s, %s)", leanStr(x.fn), leanStr(x.variable), leanStr(x.where), leanStr(x.how))
+	}
+	b.WriteString("]\n\n/-- every os.Rename (a rename REPLACES its destination): (function, place, destination, mutex that\nserialises it or \"\") -/\ndef renames : List (String × String × String × String) := [\n")
+	for i, x := range renames {
+		if i > 0 {
+			b.WriteString(",\n")
+		}
+		fmt.Fprintf(&b, "  (%s, %s, %s, %s)", leanStr(x.fn), leanStr(x.where), leanStr(x.dst), leanStr(x.guard))
+	}
+	b.WriteString("]\n\n/-- every assignment to a package-level variable made inside a function: (variable, function, place) and its barrier -/\ndef globalWrites : List (String × String × String × Barrier) := [\n")
+	for i, x := range globals {
+		if i > 0 {
+			b.WriteString(",\n")
+		}
+		fmt.Fprintf(&b, "  (%s, %s, %s, .%s)", leanStr(x.variable), leanStr(x.fn), leanStr(x.where), x.barrier)
 	}
 	b.WriteString("]\n\n")
 	fmt.Fprintf(&b, "/-- flags newTempFile passes to os.OpenFile (%s) and the os constants of this platform -/\n", temp.where)
